@@ -108,7 +108,8 @@ void h_run(void) {
   yield_mask = wl_int(0, 255);
   nall = nth;
   if (wl_pct(25)) { /* counters next to 2^32 (they only go back to zero when a worker finds the queue empty) */
-    preset = (1ll << 32) - 1 - wl_int(0, 4);
+    static const int64_t marks[] = {1ll << 32, 1ll << 32, 1ll << 16, 1ll << 31, 1ll << 8, 1ll << 20};
+    preset = marks[wl_pick(6)] - 1 - wl_int(0, 4);
     nitems[nth] = 1;
     total += 1;
     nall = nth + 1;
